@@ -3,6 +3,7 @@
 //! (true / false / panic per invocation).  One trace line per operation for the extracted model;
 //! std::vec::Vec runs in lock-step as the implementation-side oracle.
 #![allow(dead_code, unused, clippy::all)]
+use bump_scope::alloc::Global;
 use bump_scope::{Bump, BumpBox, BumpVec, FixedBumpVec, MutBumpVec, MutBumpVecRev};
 use std::cell::RefCell;
 use std::collections::HashSet;
@@ -328,6 +329,159 @@ fn overflow_probe(r: &mut Rng) -> Vec<String> {
     notes
 }
 
+/// C08: operations that grow a vector whose buffer cannot grow in place (another allocation follows
+/// it, or the arena bumps downwards), compared with std::vec::Vec; plain elements.
+fn growth_probe(r: &mut Rng) -> Vec<String> {
+    use bump_scope::settings::BumpSettings;
+    let mut notes = vec![];
+    let n = r.range(0, 10) as usize;
+    let data: Vec<u32> = (0..n).map(|_| r.below(1000) as u32).collect();
+    let extra: Vec<u32> = (0..r.range(0, 6) as usize).map(|_| 5000 + r.below(1000) as u32).collect();
+    let a = r.below(n as u64 + 1) as usize;
+    let b = a + r.below((n - a) as u64 + 1) as usize;
+    let which = r.below(8);
+    let block_growth = r.coin(2, 3);
+    let mut sv = data.clone();
+    let apply_std = |sv: &mut Vec<u32>| match which {
+        0 => sv.extend_from_within(a..b),
+        1 => sv.extend_from_within(a..b),
+        2 => sv.extend_from_slice(&extra),
+        3 => sv.extend_from_slice(&extra),
+        4 => sv.resize(n + extra.len(), 7),
+        5 => { let mut o = extra.clone(); sv.append(&mut o); }
+        6 => { sv.insert(a, 77); }
+        _ => { sv.push(78); sv.push(79); }
+    };
+    apply_std(&mut sv);
+    let what = ["extend_from_within_copy", "extend_from_within_clone", "extend_from_slice_copy", "extend_from_slice_clone", "resize", "append", "insert", "push"][which as usize];
+    macro_rules! run {
+        ($bump:expr, $name:expr) => {{
+            let bump = $bump;
+            let mut v: BumpVec<u32, _> = BumpVec::with_capacity_in(n, &bump);
+            for x in &data { v.push(*x); }
+            // something allocated after the vector: its buffer cannot be extended in place
+            let _neighbour = if block_growth { Some(bump.alloc(0xAAAA_AAAAu32)) } else { None };
+            let r_ = catch_unwind(AssertUnwindSafe(|| match which {
+                0 => v.extend_from_within_copy(a..b),
+                1 => v.extend_from_within_clone(a..b),
+                2 => v.extend_from_slice_copy(&extra),
+                3 => v.extend_from_slice_clone(&extra),
+                4 => v.resize(n + extra.len(), 7),
+                5 => v.append(extra.clone()),
+                6 => v.insert(a, 77),
+                _ => { v.push(78); v.push(79); }
+            }));
+            if r_.is_err() { notes.push(format!("{} BumpVec::{what} panicked, std::vec::Vec does not", $name)); }
+            else if v.as_slice() != &sv[..] { notes.push(format!("{} BumpVec::{what}: contents differ from std::vec::Vec: {:?} vs {:?}", $name, v.as_slice(), sv)); }
+            if v.capacity() < v.len() { notes.push(format!("{} BumpVec::{what}: capacity {} < len {}", $name, v.capacity(), v.len())); }
+            if let Some(nb) = &_neighbour { if **nb != 0xAAAA_AAAA { notes.push(format!("{} BumpVec::{what} overwrote a neighbouring allocation", $name)); } }
+        }};
+    }
+    run!(Bump::<Global, BumpSettings<1, true>>::new(), "up");
+    run!(Bump::<Global, BumpSettings<1, false>>::new(), "down");
+    // the exclusive-borrow vectors (growth = prepare in a chunk that fits + copy)
+    {
+        let mut bump: Bump = Bump::with_size(64);
+        let mut v: MutBumpVec<u32, &mut Bump> = MutBumpVec::with_capacity_in(n, &mut bump);
+        for x in &data { v.push(*x); }
+        let r_ = catch_unwind(AssertUnwindSafe(|| match which {
+            0 => v.extend_from_within_copy(a..b),
+            1 => v.extend_from_within_clone(a..b),
+            2 => v.extend_from_slice_copy(&extra),
+            3 => v.extend_from_slice_clone(&extra),
+            4 => v.resize(n + extra.len(), 7),
+            5 => v.append(extra.clone()),
+            6 => v.insert(a, 77),
+            _ => { v.push(78); v.push(79); }
+        }));
+        if r_.is_err() { notes.push(format!("MutBumpVec::{what} panicked, std::vec::Vec does not")); }
+        else if v.as_slice() != &sv[..] { notes.push(format!("MutBumpVec::{what}: contents differ from std::vec::Vec: {:?} vs {:?}", v.as_slice(), sv)); }
+    }
+    {
+        // the reversed vector: everything mirrored
+        let mut bump: Bump = Bump::with_size(64);
+        let mut v: MutBumpVecRev<u32, &mut Bump> = MutBumpVecRev::with_capacity_in(n, &mut bump);
+        for x in data.iter().rev() { v.push(*x); }       // now reads as `data`
+        let mut want = data.clone();
+        let ok = match which {
+            0 => { v.extend_from_within_copy(a..b); let mut p = data[a..b].to_vec(); p.extend(want); want = p; true }
+            1 => { v.extend_from_within_clone(a..b); let mut p = data[a..b].to_vec(); p.extend(want); want = p; true }
+            2 => { v.extend_from_slice_copy(&extra); let mut p = extra.clone(); p.extend(want); want = p; true }
+            3 => { v.extend_from_slice_clone(&extra); let mut p = extra.clone(); p.extend(want); want = p; true }
+            6 => { v.insert(a, 77); want.insert(a, 77); true }
+            7 => { v.push(78); v.push(79); want.insert(0, 78); want.insert(0, 79); true }
+            _ => false,
+        };
+        if ok && v.as_slice() != &want[..] { notes.push(format!("MutBumpVecRev::{what}: contents differ from the mirrored std::vec::Vec: {:?} vs {:?}", v.as_slice(), want)); }
+    }
+    notes
+}
+
+/// C16: split_at / split_first / split_last / split_off_first / split_off_last / merge / partition
+/// on BumpBox<[T]>, and that merge rejects parts that are not adjacent.
+fn parts_probe(r: &mut Rng) -> Vec<String> {
+    let mut notes = vec![];
+    let bump: Bump = Bump::new();
+    let n = r.range(0, 10) as usize;
+    let data: Vec<u32> = (0..n).map(|i| 100 + i as u32).collect();
+    let mid = r.below(n as u64 + 1) as usize;
+    // split_at + merge restores the whole
+    let b = bump.alloc_slice_copy(&data);
+    let addr = b.as_ptr() as usize;
+    let (l, rr) = b.split_at(mid);
+    if &*l != &data[..mid] || &*rr != &data[mid..] { notes.push(format!("parts: split_at({mid}) of {data:?} gave {:?} and {:?}", &*l, &*rr)); }
+    let m = catch_unwind(AssertUnwindSafe(|| l.merge(rr)));
+    match m {
+        Ok(m) => { if &*m != &data[..] || (n > 0 && m.as_ptr() as usize != addr) { notes.push(format!("parts: merge of the two halves of split_at({mid}) is {:?}, not {data:?}", &*m)); } }
+        Err(_) => notes.push(format!("parts: merge of the adjacent halves of split_at({mid}) panicked")),
+    }
+    // first / last
+    let b = bump.alloc_slice_copy(&data);
+    match b.split_first() {
+        Some((f, rest)) => { if n == 0 || *f != data[0] || &*rest != &data[1..] { notes.push("parts: split_first is not (first, rest)".into()); } }
+        None => if n != 0 { notes.push("parts: split_first of a non-empty slice is None".into()); },
+    }
+    let b = bump.alloc_slice_copy(&data);
+    match b.split_last() {
+        Some((f, rest)) => { if n == 0 || *f != data[n - 1] || &*rest != &data[..n - 1] { notes.push("parts: split_last is not (last, rest)".into()); } }
+        None => if n != 0 { notes.push("parts: split_last of a non-empty slice is None".into()); },
+    }
+    let mut b = bump.alloc_slice_copy(&data);
+    match b.split_off_first() {
+        Some(f) => { if n == 0 || *f != data[0] || &*b != &data[1..] { notes.push("parts: split_off_first is not first / rest".into()); } }
+        None => if n != 0 { notes.push("parts: split_off_first of a non-empty slice is None".into()); },
+    }
+    let mut b = bump.alloc_slice_copy(&data);
+    match b.split_off_last() {
+        Some(f) => { if n == 0 || *f != data[n - 1] || &*b != &data[..n - 1] { notes.push("parts: split_off_last is not last / rest".into()); } }
+        None => if n != 0 { notes.push("parts: split_off_last of a non-empty slice is None".into()); },
+    }
+    // partition: both parts in order, together the whole
+    let b = bump.alloc_slice_copy(&data);
+    let keep_even = r.coin(1, 2);
+    let (t, f) = b.partition(|x| (*x % 2 == 0) == keep_even);
+    let mut all: Vec<u32> = t.iter().chain(f.iter()).copied().collect();
+    all.sort();
+    if all != data || t.iter().any(|x| (*x % 2 == 0) != keep_even) || f.iter().any(|x| (*x % 2 == 0) == keep_even) { notes.push(format!("parts: partition of {data:?} gave {:?} / {:?}", &*t, &*f)); }
+    // merge must reject parts that are not adjacent: a gap between them, the wrong order, an empty
+    // part that lives somewhere else
+    let other: Vec<u32> = (0..r.range(1, 5) as usize).map(|i| 900 + i as u32).collect();
+    let which = r.below(4);
+    let rejected = {
+        let x = bump.alloc_slice_copy(&data);
+        let _gap = bump.alloc(0u64);
+        let y = bump.alloc_slice_copy(&other);
+        match which {
+            0 => catch_unwind(AssertUnwindSafe(|| { let m = x.merge(y); m.len() })),
+            1 => { if n == 0 { Err(Box::new(()) as Box<dyn std::any::Any + Send>) } else { let (p, q) = x.split_at(mid.max(1).min(n)); if q.is_empty() { Err(Box::new(()) as Box<dyn std::any::Any + Send>) } else { catch_unwind(AssertUnwindSafe(|| { let m = q.merge(p); m.len() })) } } }
+            2 => { let e: BumpBox<[u32]> = BumpBox::default(); catch_unwind(AssertUnwindSafe(|| { let m = e.merge(y); m.len() })) }
+            _ => { let mut x2 = x; let e = if n >= 2 { x2.split_off(1..1) } else { BumpBox::default() }; catch_unwind(AssertUnwindSafe(|| { let m = e.merge(y); m.len() })) }
+        }
+    };
+    if let Ok(len) = rejected { notes.push(format!("parts: merge accepted two parts that are not adjacent (variant {which}) and returned {len} elements")); }
+    notes
+}
+
 fn gen_op(r: &mut Rng, kind: &str, n: usize, next_id: &mut u32) -> Op {
     // indices: in range, boundary, out of range
     let idx = |r: &mut Rng| -> usize { match r.below(8) { 0 => n, 1 => n + 1 + r.below(3) as usize, 2 => 0, _ => if n == 0 { 0 } else { r.below(n as u64) as usize } } };
@@ -469,6 +623,12 @@ fn main() {
     for case in 0..cases {
         if case % 500 == 0 {
             for m in overflow_probe(&mut r) { writeln!(w, "X colls bv reserve :: overflow: {m}").unwrap(); }
+        }
+        if case % 10 == 3 {
+            for m in growth_probe(&mut r) { writeln!(w, "X colls growth probe :: {m}").unwrap(); }
+        }
+        if case % 10 == 7 {
+            for m in parts_probe(&mut r) { writeln!(w, "X colls parts probe :: {m}").unwrap(); }
         }
         let kind = r.pick(&kinds);
         let n = match r.below(8) { 0 => 0, 1 => 1, 2 => 2, _ => r.range(3, 12) as usize };
